@@ -230,6 +230,9 @@ impl<'c> Exec<'c> {
         // abandoned or in flight; judged by C06's reclaim/double-free audit
         // and C01's kernel-held-memory audit.
         self.prop == p || (self.prop == "C05" && p == "C02") || (self.prop == "C12" && (p == "C06" || p == "C01"))
+            // C09 (transparent restart): with and without the interruption the
+            // caller sees the same results, so C02's FIFO judges C09 too.
+            || (self.prop == "C09" && p == "C02")
     }
 
     fn fail(&mut self, prop: &str, kind: &str, msg: String) {
